@@ -28,6 +28,15 @@ CHECKS = {
     },
 }
 
+CHECKS["C19"] = {
+    "text": "Proof (Verus, unbounded) over the real SeqRange/SeqGroup/SimpleSequence/CacheSequence/SequenceDbManager::{next_id,next_range}: the group always "
+            "hands out its least available id and removes exactly it; apply_range keeps every available id and the least-first order; the replicated high-water mark "
+            "equals end() exactly when emitted and set_valid_last_id never lowers it; per-key counters advance by exactly the step. Spec-level lemmas turn these "
+            "postconditions into 'strictly increasing, never twice' over every call sequence.",
+    "note": "apply_range's preconditions (increasing disjoint ranges from Raft, at most one buffer non-empty) are assumed of the actor call sites; cross-node "
+            "concurrency = Raft linearisability, assumed; HashMap::get_mut contract and Arc<String> key model are assumed (shims/std_extra.rs).",
+}
+
 NOT_APPLICABLE = {
     "C01": "equation between the states of seven actors across stop/restart; effects travel through Addr::send futures — no function-shaped contract can state it (DESIGN §6)",
     "C04": "crash points between file writes of several actors need a crash-Hoare logic over an external resource; neither Verus nor Kani models intermediate disk states (DESIGN §6)",
@@ -47,5 +56,4 @@ NOT_APPLICABLE = {
     "C16": "not yet built in this revision (planned: U-grpcauth)",
     "C17": "not yet built in this revision (planned: U-permission)",
     "C18": "not yet built in this revision (planned: U-privilege)",
-    "C19": "not yet built in this revision (planned: U-sequence)",
 }
